@@ -33,6 +33,7 @@ def units(tier, seed):
             for fmt in ("binary", "bipolar"):
                 out.append({"unit": f"{ch}:p={p}:{fmt}", "kind": "stat", "channel": ch, "p": p, "fmt": fmt, "cost": 3})
         out.append({"unit": f"{ch}:dtypes-shapes", "kind": "exact", "channel": ch, "cost": 2})
+        out.append({"unit": f"{ch}:many-short-calls", "kind": "short", "channel": ch, "cost": 4})
     return out
 
 
@@ -90,6 +91,45 @@ def run_unit(ctx, u):
                         ctx.check(tuple(y.shape) == tuple(x.shape), "shape preserved", f"{ch}|{cfgc}|shape preserved|differs", p=p, shape=list(shape), out=list(y.shape))
                         _exact_clauses(ctx, ch, cfgc, p, fmt, x.to(torch.float64), y.to(torch.float64), kw.get("erasure_symbol", -1))
         ctx.sample({"unit": u["unit"], "dtypes": ["float32", "float64", "int64", "bool"], "shapes": [[17], [4, 33], [2, 3, 5, 7], [1, 1]], "probabilities": PROBS})
+        return
+
+    if u["kind"] == "short":
+        # many short calls with a small event probability: the per-symbol law must hold call by call - the total
+        # number of events ~ Bin(M*n, p) and the number of calls without any event ~ Bin(M, (1-p)^n), both exact
+        M = 3000 if q else 20000
+        tests = []
+        for p in (1e-3, 0.01, 0.04, 0.3):
+            for n in (32, 50, 200):
+                for fmt in ("binary", "bipolar"):
+                    es = 0 if fmt == "bipolar" else -1
+                    chan = make(ch, p, **({"erasure_symbol": es} if ch == "bec" else {}))
+                    torch.manual_seed(seed_for("c12short", ctx.seed, ch, p, n, fmt))
+                    total = zero_calls = 0
+                    for _ in range(M):
+                        # Z acts on ones only: all-ones words keep the number of eligible symbols equal to n;
+                        # bipolar words carry one -1 (how the format is recognised), which is not counted
+                        if ch == "z":
+                            bits = torch.ones(n + 1)
+                        else:
+                            bits = (torch.rand(n + 1) < 0.5).float()
+                        bits[0] = 0.0
+                        x = 2 * bits - 1 if fmt == "bipolar" else bits
+                        y = chan(x)
+                        if ch == "bec":
+                            ev = (y == es)[1:]
+                        else:
+                            ev = (((y + 1) / 2 if fmt == "bipolar" else y) != bits)[1:]
+                        c = int(ev.sum())
+                        total += c
+                        zero_calls += c == 0
+                    ctx.case("short", ch, p, n, fmt)
+                    for name, k, nn, pp in (("total events over all calls", total, M * n, p), ("calls without any event", zero_calls, M, (1 - p) ** n)):
+                        lo, hi = stats.binom_count_interval(nn, pp, ALPHA)
+                        ok = lo <= k <= hi
+                        tests.append({"test": name, "p": p, "n": n, "fmt": fmt, "k": int(k), "of": nn, "interval": [lo, hi], "ok": ok})
+                        ctx.note_add("statistical_tests_run")
+                        ctx.check(ok, "rate", f"{ch}|{fmt},0<p<1|rate|many short calls: {name} outside exact Binomial interval", p=p, symbols_per_call=n, calls=M, k=int(k), of=nn, interval=[lo, hi], seed=ctx.seed)
+        ctx.sample({"unit": u["unit"], "calls": M, "lengths": [32, 50, 200], "probabilities": [1e-3, 0.01, 0.04, 0.3], "tests": tests[:6]})
         return
 
     # ------------------------------------------------------------------ statistical unit
